@@ -20,7 +20,7 @@ def _hist_key(ln):
 
 
 def gen_cases(ctx, maxops, lines_out, par=False):
-    cfg = ("CONSTANTS\n  NClients = 6\n  Configs <- %s\n  MaxOps = %d\n  Defects = {}\n  LeaseOrder = \"lifo\"\n"
+    cfg = ("CONSTANTS\n  NClients = 8\n  Configs <- %s\n  MaxOps = %d\n  Defects = {}\n  LeaseOrder = \"lifo\"\n"
            "SPECIFICATION Spec\nINVARIANTS EmitCase\nCHECK_DEADLOCK FALSE\n") % ("ConfigsQuick" if ctx.quick() else "ConfigsAll", maxops)
     raw = os.path.join(ctx.tmp, "raw_%d_%s.jsonl" % (maxops, par))
     r = vlib.run_tlc(ctx, "pool", "PingPongPool", "PingPongPool_gen.cfg", workers=1, cases_to=raw, cfg_text=cfg, timeout=1200)
@@ -62,28 +62,30 @@ def run(ctx):
             raise vlib.Inconclusive("PingPongPool does not reject defect " + d)
 
     # 2. histories for replay
-    seq, par = {}, {}
+    seq, deeper, par = {}, {}, {}
     depth = 5 if q else 6
-    gen_cases(ctx, depth, seq)
+    gen_cases(ctx, depth, seq)                     # exhaustive part (seed-independent)
+    gen_cases(ctx, depth + 1, deeper)              # one operation deeper: VERIF_SEED-chosen sample
     for d in ((3, 4) if q else (3, 4, 5)):
         gen_cases(ctx, d, par, par=True)
-    seq_lines = list(seq)
-    sampled = False
-    cap = 4500 if q else 10 ** 9
-    if len(seq_lines) > cap:
-        seq_lines = rng.sample(seq_lines, cap)
-        sampled = True
+    seq_lines = sorted(seq)
+    deep_lines = sorted(deeper)
+    cap = 5000 if q else 40000
+    sampled = len(deep_lines) > cap
+    if sampled:
+        deep_lines = rng.sample(deep_lines, cap)
+    seq_lines += deep_lines
     all_lines = seq_lines + list(par)
     rng.shuffle(all_lines)          # even load per shard; the order of cases does not matter (fresh pool per case)
     cases = os.path.join(ctx.tmp, "cases.jsonl")
     with open(cases, "w") as fo:
         fo.write("\n".join(all_lines) + "\n")
-    vlib.log("[c09] histories: %d sequential (depth %d%s) + %d with a forced close window" % (
-        len(seq_lines), depth, ", sampled" if sampled else "", len(par)))
+    vlib.log("[c09] histories: %d of depth %d (all) + %d of depth %d%s + %d with a forced close window" % (
+        len(seq), depth, len(deep_lines), depth + 1, " (sampled)" if sampled else " (all)", len(par)))
 
     # 3. real pools
     binary = vlib.go_build("c09")
-    shards = 8
+    shards = 8 if q else 12
     jobs = []
     for pr in PROTOS:
         for s in range(shards):
@@ -143,13 +145,15 @@ def run(ctx):
     ctx.cov["evaluations"] = nops + naudit
     ctx.cov["distinct_nontrivial"] = len(all_lines) * len(PROTOS)
     ctx.cov["mismatch_kinds"] = kinds
-    ctx.cov["exhaustive"] = not sampled
+    ctx.cov["exhaustive"] = True      # all histories up to the stated depth are replayed; the deeper layer is a sample when capped
+    ctx.cov["deeper_layer_sampled"] = sampled
     ctx.cov["rule"] = ("every operation history of length %d over {new(up/down), resp, resp+go-away, local reset, undecodable answer, "
                        "remote close of a leased or idle connection, pool Close, pool Shutdown} enabled in PingPongPool "
                        "(configs max_connections x max_requests in %s), TLC-enumerated, replayed into the HTTP/1 pool and the xprotocol "
                        "ping-pong pool; histories of length 3..%d ending in an exchange end are replayed again with a NewStream forced "
-                       "into the connection's Close(); distinct = histories x pools") % (
-                           depth, "6 of {0,1,2}^2" if q else "{0,1,2}^2", 4 if q else 5)
+                       "into the connection's Close(); plus %d histories one operation deeper (VERIF_SEED sample when capped); "
+                       "distinct = histories x pools") % (
+                           depth, "6 of {0,1,2}^2" if q else "{0,1,2}^2", 4 if q else 5, len(deep_lines))
     ctx.assumptions += [
         "the scripted upstream answers/closes exactly when the driver says; connect failure = a loopback port that refuses",
         "xprotocol ping-pong pool is driven with a harness codec: bolt wire format with PoolMode()=PingPong and no heartbeat",
